@@ -38,7 +38,7 @@ where
           if *enable.read().unwrap() {
             sctl_next.sink_next(x);
           } else {
-            if f.call(x.clone()) {
+            if !f.call(x.clone()) {
               sctl_next.sink_next(x);
               *enable.write().unwrap() = true;
             }
